@@ -191,17 +191,23 @@ peg::parser! {
 
         rule expr() -> Expr = or_expr()
 
+        // The first operand is parsed once; `x OP rest / x` parsed it again whenever no
+        // operator followed, which made nested parentheses cost about 4^depth rule calls.
         rule or_expr() -> Expr
-            = x:and_expr() _ ci("OR") _ y:or_expr() {
-                Expr::Or(Box::new(x), Box::new(y))
+            = x:and_expr() y:( _ ci("OR") _ y:or_expr() { y } )? {
+                match y {
+                    Some(y) => Expr::Or(Box::new(x), Box::new(y)),
+                    None => x,
+                }
             }
-            / and_expr()
 
         rule and_expr() -> Expr
-            = x:factor() _ ci("AND") _ y:and_expr() {
-                Expr::And(Box::new(x), Box::new(y))
+            = x:factor() y:( _ ci("AND") _ y:and_expr() { y } )? {
+                match y {
+                    Some(y) => Expr::And(Box::new(x), Box::new(y)),
+                    None => x,
+                }
             }
-            / factor()
 
         rule factor() -> Expr
             = ci("NOT") _ x:factor() { Expr::Not(Box::new(x)) }
